@@ -52,7 +52,7 @@ where
         buffer.push(next_byte2);
     }
 
-    let (result, _enc, errors) = UTF_16LE.decode(buffer.as_slice());
+    let (result, errors) = UTF_16LE.decode_without_bom_handling(buffer.as_slice());
     if errors {
         Err(EncodedStringsError::DecodingFailed("UTF-16".to_string()))
     } else {
